@@ -20,6 +20,8 @@ import (
 
 	"github.com/brutella/hc/accessory"
 	"github.com/brutella/hc/db"
+	"github.com/brutella/hc/hap/pair"
+	"github.com/brutella/hc/util"
 )
 
 func init() { register("C04", checkC04) }
@@ -78,6 +80,7 @@ func checkC04(c *Ctx) {
 		"The outcome vector is diffed with the symbolic run of the Lean model")
 	c.Assume("conformance is relative to the transcription of the HAP constants in HcModel/SpecController.lean and ref_crypto.go; " +
 		"SRP values A, B, S enter M1/M2/K in minimal big-endian form (Stanford reference; DESIGN.md §6 C04 limits)")
+	c04SrpKeyLength(c)
 	n := c.Pick(16, 96)
 	model := c.Model([]string{"spec run 1", "spec run 0"})
 	parallel(n, func(i int) {
@@ -383,4 +386,56 @@ func bucketLen2(n int) int {
 		}
 	}
 	return 1 << 20
+}
+
+// c04SrpKeyLength: the accessory's SRP public key B is a 3072-bit number; one in 256 has a leading zero byte. The start
+// response carries it as the 384 bytes the specification defines (a controller written from the specification — and the
+// library's own client — refuses any other length), and pairing succeeds with such a key like with any other.
+func c04SrpKeyLength(c *Ctx) {
+	id := "srp-key-length#0"
+	if c.Skip(id) {
+		return
+	}
+	r := c.CaseRng("srp-key-length", 0)
+	a := accessory.NewSwitch(accessory.Info{Name: "Sw"})
+	f, err := newAccFixture(c, "00102003", a.Accessory)
+	if err != nil {
+		c.Violate("C04 fixture cannot be built", id, nil, "fixture", err.Error())
+		return
+	}
+	defer f.Close()
+	tried, short := 0, 0
+	for ; tried < 1500 && short < 1; tried++ {
+		ctl, err := pair.NewSetupServerController(f.device, f.db)
+		if err != nil {
+			c.Violate("pair-setup controller cannot be created", id, nil, "controller", err.Error())
+			return
+		}
+		in, _ := util.NewTLV8ContainerFromReader(bytes.NewReader(tlvMsg(tlvOp{tState, b1(1)}, tlvOp{tMethod, b1(0)})))
+		out, err := ctl.Handle(in)
+		if err != nil {
+			c.Violate("pair-setup start is refused", id, nil, "M2", err.Error())
+			return
+		}
+		B, salt := out.GetBytes(pair.TagPublicKey), out.GetBytes(pair.TagSalt)
+		leadingZero := len(B) < 384 || B[0] == 0
+		if len(B) != 384 {
+			c.Violate("the accessory's SRP public key is not sent as the 384 bytes the specification defines (its value has a leading zero byte)", id,
+				map[string]interface{}{"pair_setup_controllers_tried": tried + 1}, "384 bytes", fmt.Sprintf("%d bytes", len(B)))
+		}
+		if !leadingZero {
+			continue
+		}
+		short++
+		// the exchange goes on with this key
+		cl := newRefSRPClient(r, "Pair-Setup", f.pin)
+		cl.Respond(salt, B)
+		m3, _ := util.NewTLV8ContainerFromReader(bytes.NewReader(tlvMsg(tlvOp{tState, b1(3)}, tlvOp{tPubKey, cl.Abytes()}, tlvOp{tProof, cl.M1})))
+		m4, err := ctl.Handle(m3)
+		if err != nil || m4.GetByte(pair.TagErrCode) != 0 || !cl.VerifyM2(m4.GetBytes(pair.TagProof)) {
+			c.Violate("the setup-code proof is refused when the accessory's SRP public key has a leading zero byte", id, map[string]interface{}{"B_bytes_on_the_wire": len(B)}, "M4 with the accessory's proof", fmt.Sprint(err, m4))
+		}
+	}
+	c.Count(id, short > 0, "stream:srp-key-length", fmt.Sprintf("srp-key-length:leading-zero-keys=%d", short))
+	c.Extra("srp_key_length_controllers_tried", tried)
 }
